@@ -13,6 +13,7 @@ import ZckModel.Props.C01Encode
 import ZckModel.Props.C01Stream
 import ZckModel.Props.C02Full
 import ZckModel.Props.C01
+import ZckModel.Props.C01Chunks
 
 namespace Zck.EncP
 open Zck Zck.Header Zck.Compint Zck.Res Zck.Format Zck.Encode Zck.C13P Zck.Reader Zck.Stream
@@ -329,6 +330,228 @@ theorem write_ops_read_back (cfg : Writer.Cfg) (hl : Writer.Legal cfg.norm) (ops
 
 end
 
+/-! ### the whole file of the "none" backend, byte for byte (`Encode.closeFileNone`, compared with the implementation's output on every
+uncompressed WRITE case) reads back as the chunks it was made of -/
+
+section
+variable (H : Format.HashFn) (D : Decomp)
+
+theorem mapM_entries (cht : Nat) : ∀ (all : List Bytes) (ents : List Chunk),
+    all.mapM (fun p => entryFor H cht p p) = some ents →
+    ents.length = all.length ∧ ∀ (i : Nat) (p : Bytes) (c : Chunk), all[i]? = some p → ents[i]? = some c → entryFor H cht p p = some c
+  | [], ents, h => by
+    simp at h; subst h; exact ⟨rfl, fun i p c hp => by simp at hp⟩
+  | p :: rest, ents, h => by
+    rw [List.mapM_cons] at h
+    cases he : entryFor H cht p p with
+    | none => rw [he] at h; simp at h
+    | some c =>
+      rw [he] at h
+      cases hr : rest.mapM (fun p => entryFor H cht p p) with
+      | none => rw [hr] at h; simp at h
+      | some cs' =>
+        rw [hr] at h
+        simp at h
+        subst h
+        obtain ⟨l, ih⟩ := mapM_entries cht rest cs' hr
+        refine ⟨by simp [l], fun i p' c' hp hc => ?_⟩
+        cases i with
+        | zero => simp at hp hc; subst hp hc; exact he
+        | succ i => simp at hp hc; exact ih i p' c' hp hc
+
+/-- every entry with its chunk (stored = content: nothing is compressed) -/
+def mkWs : List Chunk → List Bytes → List WC
+  | c :: cs, p :: ps => ⟨c, p, p⟩ :: mkWs cs ps
+  | _, _ => []
+
+theorem mkWs_maps : ∀ (cs : List Chunk) (ps : List Bytes), cs.length = ps.length →
+    (mkWs cs ps).map (·.c) = cs ∧ (mkWs cs ps).map (·.st) = ps ∧ (mkWs cs ps).map (·.pl) = ps
+  | [], [], _ => ⟨rfl, rfl, rfl⟩
+  | [], _ :: _, h => by simp at h
+  | _ :: _, [], h => by simp at h
+  | c :: cs, p :: ps, h => by
+    obtain ⟨a, b, d⟩ := mkWs_maps cs ps (by simpa using h)
+    simp [mkWs, a, b, d]
+
+theorem mkWs_mem : ∀ (cs : List Chunk) (ps : List Bytes) (w : WC), w ∈ mkWs cs ps →
+    ∃ i : Nat, cs[i]? = some w.c ∧ ps[i]? = some w.st ∧ w.pl = w.st
+  | [], _, w, h => by simp [mkWs] at h
+  | _ :: _, [], w, h => by simp [mkWs] at h
+  | c :: cs, p :: ps, w, h => by
+    simp only [mkWs, List.mem_cons] at h
+    rcases h with rfl | h
+    · exact ⟨0, rfl, rfl, rfl⟩
+    · obtain ⟨i, a, b, d⟩ := mkWs_mem cs ps w h
+      exact ⟨i + 1, by simpa using a, by simpa using b, d⟩
+
+/-- what `entryFor` says about an entry and its chunk -/
+theorem entryFor_spec (hH : HashLen H) (cht cs : Nat) (hcs : hsize cht = some cs) (p : Bytes) (c : Chunk)
+    (h : entryFor H cht p p = some c) :
+    c.compLen = p.length ∧ c.len = p.length ∧ c.digest.length = cs ∧ c.udigest = none ∧
+    (p.length ≠ 0 → H cht p = some c.digest) ∧ (p.length = 0 → c.digest = zeros cs) := by
+  unfold entryFor at h
+  by_cases h0 : p.length = 0
+  · rw [if_pos h0, hcs] at h
+    simp only [Option.map_some, Option.some.injEq] at h
+    subst h
+    exact ⟨h0.symm, h0.symm, by simp [zeros], rfl, fun hx => absurd h0 hx, fun _ => rfl⟩
+  · rw [if_neg h0] at h
+    cases hd : H cht p with
+    | none => rw [hd] at h; simp at h
+    | some d =>
+      rw [hd] at h
+      simp only [Option.map_some, Option.some.injEq] at h
+      subst h
+      have := hH cht p d hd
+      rw [hcs] at this
+      exact ⟨rfl, rfl, by simpa using this.symm, rfl, fun _ => rfl, fun hx => absurd hx h0⟩
+
+theorem entFits_of (u : Bool) (cs hdrTotal : Nat) : ∀ (ents : List Chunk) (idxLoc : Nat),
+    (∀ c ∈ ents, c.digest.length = cs ∧ c.len = c.compLen) → u = false →
+    idxLoc + C13.sumLen ents + hdrTotal ≤ 2^63 - 1 → EntFits u cs hdrTotal idxLoc ents
+  | [], _, _, _, _ => trivial
+  | c :: rest, idxLoc, hall, hu, hb => by
+    simp only [C13.sumLen] at hb
+    obtain ⟨h1, h2⟩ := hall c (by simp)
+    refine ⟨h1, (fun hx => by rw [hu] at hx; cases hx), by omega, by omega, by omega, ?_⟩
+    exact entFits_of u cs hdrTotal rest _ (fun c' hc' => hall c' (List.mem_cons_of_mem _ hc')) hu (by omega)
+
+/-- **C01 for uncompressed files, from the bytes `zck_close` writes.**  `f` = the file the model of `zck_close` produces for a
+dictionary (possibly empty) and non-empty data chunks; then the parser model opens it and, for ANY read schedule that ends short,
+the bytes handed back are exactly the data chunks concatenated, and `zck_close` succeeds. -/
+theorem closeFileNone_reads_back (ht cht ds cs : Nat) (dict : Bytes) (chunks : List Bytes) (f : Bytes)
+    (hf : closeFileNone H ht cht dict chunks = some f)
+    (hds : hsize ht = some ds) (hcs : hsize cht = some cs) (hH : HashLen H)
+    (hne : ∀ p ∈ chunks, p ≠ []) (hsmall : ∀ p ∈ dict :: chunks, p.length < allocLimit) (hlen : f.length < 2^63)
+    (hidx : ∀ ents dd, (dict :: chunks).mapM (fun p => entryFor H cht p p) = some ents →
+      (encIndex ⟨ht, cht, 0, 0, dd, ents⟩).length < 2^31)
+    (init : List Nat) (nl : Nat) :
+    ∃ h, openFile H f = .ok h ∧
+      (∀ r ∈ (reads H D f (openCtx h) init).1, 0 ≤ r.ret ∧ r.ret = r.bytes.length) ∧
+      0 ≤ (compRead H D f (reads H D f (openCtx h) init).2 nl).1.ret ∧
+      ((compRead H D f (reads H D f (openCtx h) init).2 nl).1.ret < nl →
+        outOf (reads H D f (openCtx h) init).1 ++ (compRead H D f (reads H D f (openCtx h) init).2 nl).1.bytes = chunks.flatten ∧
+        close H (compRead H D f (reads H D f (openCtx h) init).2 nl).2 = true) := by
+  unfold closeFileNone at hf
+  simp only [Option.bind_eq_bind] at hf
+  cases hm : (dict :: chunks).mapM (fun p => entryFor H cht p p) with
+  | none => rw [hm] at hf; simp at hf
+  | some ents =>
+    rw [hm] at hf
+    simp only [Option.bind_some] at hf
+    cases hdd : H ht (dict :: chunks).flatten with
+    | none => rw [hdd] at hf; simp at hf
+    | some dd =>
+      rw [hdd] at hf
+      simp only [Option.bind_some] at hf
+      have hisz := hidx ents dd hm
+      generalize hs : (⟨ht, cht, 0, 0, dd, ents⟩ : Spec) = s at hf hisz
+      have hsht : s.hashType = ht := by rw [← hs]
+      have hscht : s.chunkHashType = cht := by rw [← hs]
+      have hsfl : s.flags = 0 := by rw [← hs]
+      have hsct : s.compType = 0 := by rw [← hs]
+      have hsdd : s.dataDigest = dd := by rw [← hs]
+      have hsch : s.chunks = ents := by rw [← hs]
+      unfold header at hf
+      cases hdg : H s.hashType (encLead0 s ++ encBody s) with
+      | none => rw [hdg] at hf; simp at hf
+      | some dg =>
+        rw [hdg] at hf
+        simp only [Option.map_some, Option.bind_some, Option.some.injEq] at hf
+        obtain ⟨hel, hent⟩ := mapM_entries H cht _ _ hm
+        obtain ⟨m1, m2, m3⟩ := mkWs_maps ents (dict :: chunks) hel
+        have hdgl : dg.length = ds := by
+          have := hH _ _ _ hdg; rw [hsht, hds] at this; simpa using this.symm
+        have hddl : dd.length = ds := by
+          have := hH _ _ _ hdd; rw [hds] at this; simpa using this.symm
+        have hfile : f = fileOf s (mkWs ents (dict :: chunks)) dg := by
+          unfold fileOf; rw [m2, ← hf]
+        -- every entry describes its chunk
+        have hw : ∀ w ∈ mkWs ents (dict :: chunks), w.c.compLen = w.st.length ∧ w.c.len = w.pl.length ∧ w.c.digest.length = cs ∧
+            (w.st.length ≠ 0 → H cht w.st = some w.c.digest) ∧ (w.st.length = 0 → w.c.digest = zeros cs) ∧ w.pl = w.st := by
+          intro w hwm
+          obtain ⟨i, a, b, d⟩ := mkWs_mem _ _ w hwm
+          obtain ⟨e1, e2, e3, _, e5, e6⟩ := entryFor_spec H hH cht cs hcs w.st w.c (hent i w.st w.c b a)
+          exact ⟨e1, by rw [d]; exact e2, e3, e5, e6, d⟩
+        have hwok : ∀ w ∈ mkWs ents (dict :: chunks), ∀ dct, (w.c.compLen = 0 ∧ w.c.len = 0) ∨ WOk H D s.chunkHashType s.compType dct w := by
+          intro w hwm dct
+          obtain ⟨e1, e2, e3, e5, e6, e7⟩ := hw w hwm
+          by_cases h0 : w.st.length = 0
+          · exact Or.inl ⟨by omega, by rw [e2, e7]; exact h0⟩
+          · refine Or.inr ⟨e1, e2, ⟨w.c.digest, by rw [hscht]; exact e5 h0, by rw [if_neg (by omega)]⟩, by rw [hsct]; simp [e7]⟩
+        -- the data chunks are not empty, so theirs is always the second case
+        have hrestok : ∀ w ∈ (mkWs ents (dict :: chunks)).tail, WOk H D s.chunkHashType s.compType (dictOfHead (mkWs ents (dict :: chunks))) w := by
+          intro w hwt
+          have hwm : w ∈ mkWs ents (dict :: chunks) := List.mem_of_mem_tail hwt
+          rcases hwok w hwm (dictOfHead (mkWs ents (dict :: chunks))) with ⟨hc0, _⟩ | hok
+          · exfalso
+            -- an entry of the tail belongs to a data chunk, which is not empty
+            have hst : w.st ∈ chunks := by
+              have : w.st ∈ ((mkWs ents (dict :: chunks)).tail).map (·.st) := List.mem_map_of_mem hwt
+              rw [List.map_tail, m2] at this
+              simpa using this
+            have := hne _ hst
+            have hl := (hw w hwm).1
+            exact this (List.eq_nil_of_length_eq_zero (by omega))
+          · exact hok
+        have hfits : Fits s ds cs := by
+          refine ⟨by rw [hsht]; exact hds, by rw [hscht]; exact hcs, by rw [hsdd]; exact hddl, Or.inl hsfl, Or.inl hsct, ?_, hisz, ?_⟩
+          · rw [hsch]; intro hn; rw [hn] at hel; simp at hel
+          · rw [hsch]
+            have hu : withU s = false := by unfold withU; rw [hsfl]; decide
+            refine entFits_of _ cs _ ents 0 (fun c hc => ?_) hu ?_
+            · obtain ⟨i, hi, hic⟩ := List.getElem_of_mem hc
+              have hp : (dict :: chunks)[i]? = some (dict :: chunks)[i] := List.getElem?_eq_getElem (by omega)
+              obtain ⟨e1, e2, e3, _⟩ := entryFor_spec H hH cht cs hcs _ c (hent i _ c hp (by rw [List.getElem?_eq_getElem hi, hic]))
+              exact ⟨e3, by omega⟩
+            · -- header + data = the file, which is shorter than 2^63
+              have hsum : C13.sumLen ents = (dict :: chunks).flatten.length := by
+                rw [← m1, sumLen_map _ (fun w hwm => (hw w hwm).1), m2]
+              have hfl : f.length = (encLead0 s).length + ds + (encBody s).length + (dict :: chunks).flatten.length := by
+                rw [← hf]; simp [hdgl]; omega
+              omega
+        have hdataok : s.flags = 4 ∨ H s.hashType ((mkWs ents (dict :: chunks)).map (·.st)).flatten = some s.dataDigest := by
+          right; rw [m2, hsht, hsdd]; exact hdd
+        have hsmall' : ∀ w ∈ mkWs ents (dict :: chunks), w.pl.length < allocLimit := by
+          intro w hwm
+          obtain ⟨i, _, b, d⟩ := mkWs_mem _ _ w hwm
+          rw [d]; exact hsmall _ (List.mem_of_getElem? b)
+        obtain ⟨r0, r1, r2, r3⟩ := write_read_roundtrip H D s (mkWs ents (dict :: chunks)) ds cs dg (by rw [hsch, m1]) hfits hdg hdgl
+          (fun w hwm => ⟨(hw w hwm).1, (hw w hwm).2.1⟩)
+          (fun w hw0 => hwok w (by cases hx : mkWs ents (dict :: chunks) with
+            | nil => rw [hx] at hw0; simp at hw0
+            | cons y ys => rw [hx] at hw0; simp at hw0; subst hw0; simp) none)
+          hrestok hsmall' hdataok init nl
+        rw [← hfile] at r0 r1 r2 r3
+        refine ⟨_, r0, r1, r2, fun hshort => ?_⟩
+        obtain ⟨a, b⟩ := r3 hshort
+        refine ⟨?_, b⟩
+        rw [a, List.map_drop, m3]
+        simp
+
+/-- **C01, uncompressed, from the API calls to the bytes read back.**  Any sequence of write / end-of-chunk calls under a legal
+configuration, closed (chunker model), the file `zck_close` writes for the resulting chunks (byte-for-byte model, compared with the
+implementation on every uncompressed WRITE case): any read schedule that ends short returns exactly the bytes written. -/
+theorem write_close_read_none (cfg : Writer.Cfg) (hl : Writer.Legal cfg.norm) (ops : List Writer.Op) (chunks : List Bytes)
+    (hclose : Writer.closeChunks cfg ops = some chunks)
+    (ht cht ds cs : Nat) (dict : Bytes) (f : Bytes) (hf : closeFileNone H ht cht dict chunks = some f)
+    (hds : hsize ht = some ds) (hcs : hsize cht = some cs) (hH : HashLen H)
+    (hsmall : ∀ p ∈ dict :: chunks, p.length < allocLimit) (hlen : f.length < 2^63)
+    (hidx : ∀ ents dd, (dict :: chunks).mapM (fun p => entryFor H cht p p) = some ents →
+      (encIndex ⟨ht, cht, 0, 0, dd, ents⟩).length < 2^31)
+    (init : List Nat) (nl : Nat) :
+    ∃ h, openFile H f = .ok h ∧
+      ((compRead H D f (reads H D f (openCtx h) init).2 nl).1.ret < nl →
+        outOf (reads H D f (openCtx h) init).1 ++ (compRead H D f (reads H D f (openCtx h) init).2 nl).1.bytes = Writer.written ops ∧
+        close H (compRead H D f (reads H D f (openCtx h) init).2 nl).2 = true) := by
+  have hne := Writer.closeChunks_nonempty cfg ops chunks hclose
+  obtain ⟨h, h1, _, _, h4⟩ := closeFileNone_reads_back H D ht cht ds cs dict chunks f hf hds hcs hH hne hsmall hlen hidx init nl
+  exact ⟨h, h1, fun hs => by
+    obtain ⟨a, b⟩ := h4 hs
+    exact ⟨by rw [a]; exact C01.W_structure cfg hl ops chunks hclose, b⟩⟩
+
+end
+
 /-! ### non-vacuity (test): the example file of `Props/C02Full.lean` is such a file -/
 
 def exSpec : Spec := ⟨3, 3, 0, 0, exDd, [⟨0, zeros 16, none, 0, 0, 0⟩, ⟨0, exD1, none, 3, 3, 0⟩, ⟨0, exD2, none, 2, 2, 0⟩]⟩
@@ -336,6 +559,9 @@ def exWs : List WC := [⟨⟨0, zeros 16, none, 0, 0, 0⟩, [], []⟩, ⟨⟨0, 
   ⟨⟨0, exD2, none, 2, 2, 0⟩, [9, 8], [9, 8]⟩]
 
 example : fileOf exSpec exWs exHd = exFile := by decide +kernel
+
+/-- the byte-for-byte model of `zck_close` produces exactly that file for an empty dictionary and the two chunks -/
+example : closeFileNone exH 3 3 [] [[1, 2, 3], [9, 8]] = some exFile := by decide +kernel
 
 theorem exLens : (encLead0 exSpec).length = 7 ∧ (encBody exSpec).length = 76 ∧ (encIndex exSpec).length = 56 := by decide +kernel
 
